@@ -84,7 +84,7 @@ func runC03(c *Ctx) {
 		"Linux": "init", "Linux.Devices": "devices", "Linux.Devices.*": "devices",
 		"Linux.Resources": "init", "Linux.Resources.Devices": "cgroup", "Linux.Resources.Devices.*": "cgroup",
 		"Mounts": "mounts", "Mounts.*": "mounts",
-		"Hooks": "init",
+		"Hooks":          "init",
 		"Linux.IntelRdt": "rdt", "Linux.IntelRdt.ClosID": "rdt",
 		"Process.User.AdditionalGids": "gids", "Process.User.AdditionalGids.*": "gids",
 	}
@@ -632,8 +632,8 @@ func c03FieldMaps(c *Ctx) {
 	r := c.R
 	type fm struct {
 		recv, cdiType, ociType string
-		table               map[string]string // OCI field -> CDI field
-		excluded            map[string]string // CDI field -> reason
+		table                  map[string]string // OCI field -> CDI field
+		excluded               map[string]string // CDI field -> reason
 	}
 	maps := []fm{
 		{"Hook", "Hook", "Hook", map[string]string{"Path": "Path", "Args": "Args", "Env": "Env", "Timeout": "Timeout"},
@@ -825,7 +825,7 @@ func c03FillMissing(c *Ctx) {
 		switch n {
 		case "Type":
 			for _, g := range gs {
-				if strings.HasSuffix(g, `Type == ""`) {
+				if strings.HasSuffix(g, `Type == ""`) || (strings.HasPrefix(g, "empty(") && strings.HasSuffix(g, ".Type)")) {
 					cond = g
 				}
 			}
